@@ -870,9 +870,37 @@ func (b *Book) ingestCheckstate(o *HTTPObs) {
 			}
 		}
 	}
+	// Ys locked by a melt whose Lightning payment is in flight right now: inputs of the request that
+	// made the last pay call on its quote, pay call made before this state check started, backend
+	// truth "in flight" (neither refused nor ended)
+	inflightY := map[string]string{}
+	for _, qid := range m.LQOrder {
+		q := m.LQ[qid]
+		p := b.w.LN.Payments[m.Name+"|"+q.Hash]
+		if p == nil || p.Truth != ptInflight {
+			continue
+		}
+		var last *MeltAttempt
+		for _, at := range q.Attempts {
+			if at.Paid && at.PaySeq > 0 && (last == nil || at.PaySeq > last.PaySeq) {
+				last = at
+			}
+		}
+		if last != nil && last.PaySeq < o.Seq {
+			for _, pr := range last.Inputs {
+				inflightY[hY(pr.Secret)] = qid
+			}
+		}
+	}
 	for i, st := range resp.States {
 		if st.Y != req.Ys[i] {
 			b.Violate("C15.state_order", "order", "checkstate answer %d is for Y %s, request asked %s", i, short(st.Y), short(req.Ys[i]))
+		}
+		if qid, ok := inflightY[st.Y]; ok && spentY[st.Y] == nil {
+			b.w.S.Stats["c15_inflight_checked"]++
+			if st.State != "PENDING" {
+				b.Violate("C15.state_wrong", "inflight:PENDING->"+st.State, "checkstate reports %s for Y %s, an input of melt %s whose Lightning payment is in flight", st.State, short(st.Y), short(qid))
+			}
 		}
 		if r := spentY[st.Y]; r != nil {
 			b.w.S.Stats["c15_spent_checked"]++
